@@ -579,3 +579,35 @@ class HRGRule_copy:
         "independent": lambda self, result: is_fresh(result) and result.rhs is not self.rhs,
         "source_untouched": lambda self: same_graph_state(self.rhs),
     }
+
+
+# ---- HRG.copy and == over the whole grammar (C16): rules as snapshots, start symbol set ------------------------------
+@contract("fggs.fggs.HRG.copy")
+class HRG_copy:
+    sig = {"self": "HRGFull"}
+    properties = ["C16", "C18"]
+    requires = lambda self: label_tables_keyed_by_name(self) and self._start.is_nonterminal
+    loops = {0: lambda self, copy, _i0, _it0: (
+        self._rules == old(self._rules) and self._node_labels == old(self._node_labels)
+        and self._edge_labels == old(self._edge_labels) and self._start == old(self._start)
+        and copy._node_labels == self._node_labels and copy._edge_labels == self._edge_labels and copy._start == self._start
+        and forall(lambda l: (l in copy._rules) == exists(lambda j: 0 <= j and j < _i0 and _it0[j] == l, "int"), "EdgeLabel")
+        and forall(lambda l: implies(l in copy._rules, copy._rules[l] == self._rules[l]), "EdgeLabel"))}
+    ensures = {
+        "equal": lambda self, result: (result._rules == self._rules and result._start == self._start
+                                       and result._node_labels == self._node_labels
+                                       and result._edge_labels == self._edge_labels),
+        "independent": lambda self, result: is_fresh(result),
+        "source_untouched": lambda self: (self._rules == old(self._rules) and self._start == old(self._start)
+                                          and self._node_labels == old(self._node_labels)
+                                          and self._edge_labels == old(self._edge_labels)),
+    }
+
+
+@contract("fggs.fggs.HRG.__eq__")
+class HRG_eq:
+    sig = {"self": "HRGFull", "other": "HRGFull"}
+    properties = ["C16"]
+    ensures = {"decides": lambda self, other, result: result == (
+        self._rules == other._rules and self._start == other._start
+        and self._node_labels == other._node_labels and self._edge_labels == other._edge_labels)}
